@@ -675,6 +675,8 @@ class TermEval:
                     return a & b
             if isinstance(a, int) and isinstance(b, int) and isinstance(node.op, (ast.Add, ast.Sub, ast.Mult)):
                 return {ast.Add: a + b, ast.Sub: a - b, ast.Mult: a * b}[type(node.op)]
+            if isinstance(a, int) and isinstance(b, int) and b != 0 and isinstance(node.op, (ast.Mod, ast.FloorDiv)):
+                return a % b if isinstance(node.op, ast.Mod) else a // b
             raise NC
         if isinstance(node, ast.Compare) and len(node.ops) == 1:
             a, b = self.const(node.left, env, fn, depth), self.const(node.comparators[0], env, fn, depth)
